@@ -135,7 +135,7 @@ def check_mask_lockstep(ck: Checker, prog: Program, rule: str, modules=("hvsr_tr
                 if f.qualname.endswith("HvsrTraditional.update_peaks_bounded") and mask == "valid_window_boolean_mask" \
                         and sub == ":" and isinstance(st.value, ast.Constant) and st.value.value is True:
                     p = parent_of(st)
-                    if isinstance(p, ast.If) and isinstance(p.test, ast.Name):
+                    if isinstance(p, ast.If) and parent_of(p) is f.node:
                         ck.ok(rule, f.qualname, norm_key(st, 90), detail="designed exception: no curve has a peak")
                         continue
                 ck.violation(rule, f.qualname, norm_key(st, 90),
@@ -263,104 +263,148 @@ def check_estimators(ck: Checker, prog: Program, rule: str):
                      f"the factory does not return (PRE_PROCESS_FUNCTION_MAP[d][c], POST_PROCESS_FUNCTION_MAP[d][c]) in that order "
                      f"(sources {src}; alias map used: {canon})", loc=fac.loc())
 
-    # ---- weighted mean
-    f = prog.func("statistics._nanmean_weighted")
-    T = translator_for(prog, f)
-    top = [st for st in f.node.body if isinstance(st, (ast.Assign, ast.AugAssign))]
-    forward_substitute(top, T)
-    rets = returns_of(f)
-    if len(rets) != 1:
-        ck.violation(rule, f.qualname, "single return", f"{len(rets)} return statements: a path bypasses the weighted estimator", loc=f.loc())
-    got = T.tr(rets[-1].value)
-    pre, post = sp.Function("pre_fxn"), sp.Function("post_fxn")
-    v, w = sp.Symbol("values", real=True), sp.Symbol("weights", real=True)
-    ns = sp.Function("nansum")
-    want = post(ns(pre(v) * w) / ns(w))
-    if equal(got, want):
-        ck.ok(rule, f.qualname, norm_key(rets[-1]), detail="post(nansum(pre(v)*w)/nansum(w))")
-    else:
-        ck.violation(rule, f.qualname, "weighted mean", f"returns {got}; expected {want}", loc=f.loc(rets[-1]))
-    _check_factory_unpack(ck, rule, f, "mean")
-    _check_default_weights(ck, rule, f)
+    _weighted_estimators(ck, prog, rule)
 
-    # ---- weighted std
-    f = prog.func("statistics._nanstd_weighted")
-    T = translator_for(prog, f)
-    top = [st for st in f.node.body if isinstance(st, (ast.Assign, ast.AugAssign))]
-    forward_substitute(top, T)
-    rets = returns_of(f)
-    if len(rets) != 1:
-        ck.violation(rule, f.qualname, "single return", f"{len(rets)} return statements", loc=f.loc())
-    mean_call = expect(prog, f, "_nanmean_weighted(distribution=distribution, values=values, weights=weights, mean_kwargs=std_kwargs)")
-    num = T.env.get("numerator")
-    want_num = ns(w * (pre(v) - mean_call) ** 2)
-    if num is not None and equal(num, want_num):
-        ck.ok(rule, f.qualname, "numerator = nansum(w*(pre(v) - mean)**2)")
-    else:
-        ck.violation(rule, f.qualname, "numerator", f"numerator is {num}; expected {want_num}", loc=f.loc())
-    got = T.tr(rets[-1].value)
-    den = sp.Symbol("denominator", real=True)
-    want = post(sp.sqrt(want_num / den))
-    if equal(got, want):
-        ck.ok(rule, f.qualname, norm_key(rets[-1]), detail="post(sqrt(numerator/denominator))")
-    else:
-        ck.violation(rule, f.qualname, "weighted std", f"returns {got}; expected {want}", loc=f.loc(rets[-1]))
-    # mean taken to log space for the lognormal distribution, before the numerator
-    adj = [st for st in f.node.body if isinstance(st, ast.If) and "lognormal" in unparse(st.test)
-           and any(isinstance(b, ast.Assign) and unparse(b.targets[0]) == "mean" for b in st.body)]
-    okadj = False
-    if len(adj) == 1:
-        b = [x for x in adj[0].body if isinstance(x, ast.Assign)][0]
-        TT = Translator()
-        okadj = equal(TT.tr(b.value), sp.log(TT.sym("mean"))) and not adj[0].orelse
-        numst = [st for st in f.node.body if isinstance(st, ast.Assign) and unparse(st.targets[0]) == "numerator"]
-        okadj = okadj and numst and adj[0].lineno < numst[0].lineno
-    if okadj:
-        ck.ok(rule, f.qualname, norm_key(adj[0]), detail="lognormal: deviations about log(mean)")
-    else:
-        ck.violation(rule, f.qualname, "lognormal mean in log space",
-                     "for the lognormal distribution the deviations are not taken about log(mean)", loc=f.loc())
-    _check_factory_unpack(ck, rule, f, "std")
-    _check_default_weights(ck, rule, f)
-    # denominators
-    branches = _string_ladder(f, "denominator")
-    TT = translator_for(prog, f)
-    wexpr = {
-        "nist": (1 - 1 / sp.Function("sum")(sp.Function("invert")(sp.Function("isnan")(w)))) * ns(w),
-        "cheng": 1 - ns(w ** 2),
-    }
-    for key, want_d in wexpr.items():
-        st = branches.get(key)
-        if st is None:
-            ck.violation(rule, f.qualname, f"denominator '{key}'", f"no branch for denominator == '{key}'", loc=f.loc())
-            continue
-        block = _block_of(st)
-        TB = translator_for(prog, f)
-        forward_substitute([s for s in block if isinstance(s, (ast.Assign, ast.AugAssign))], TB)
-        got = TB.env.get("denominator")
-        if got is not None and equal(got, want_d):
-            ck.ok(rule, f.qualname, f"denominator '{key}' = {want_d}")
-        else:
-            ck.violation(rule, f.qualname, f"denominator '{key}'", f"'{key}' denominator is {got}; expected {want_d}", loc=f.loc(st))
-    dflt = f.defaults().get("denominator")
-    if isinstance(dflt, ast.Constant) and dflt.value == "nist":
-        ck.ok(rule, f.qualname, "default denominator 'nist' (n-1 for unit weights)", nontrivial=False)
-    else:
-        ck.violation(rule, f.qualname, "default denominator", f"default denominator is {unparse(dflt) if dflt else None}, expected 'nist'", loc=f.loc())
+
+def _leaves(prog: Program, f: Func, cls: Optional[Class] = None):
+    from ..pathtable import PathTable
+    hook = pkg_call_hook(prog, f.module, cls)
+    return PathTable(prog, f.module, call_hook=hook).leaves([st for st in f.node.body])
+
+
+def _weighted_estimators(ck: Checker, prog: Program, rule: str):
+    """Decision tables of _nanmean_weighted / _nanstd_weighted / _nth_std_factory: on every returning path the value is the
+    stated estimator of that path's case (default or given weights, normal or lognormal, 'nist' or 'cheng')."""
+    from ..pathtable import literals, same_rel
+    call, gi = sp.Function("call"), sp.Function("getitem")
+    ns, NONE = sp.Function("nansum"), sp.Symbol("None")
+    R = lambda n: sp.Symbol(n, real=True)   # noqa: E731
+    dist, v, w, den_p = R("distribution"), R("values"), R("weights"), R("denominator")
+    NAN = sp.nan
+
+    def case(l, lit):
+        ls = literals(l)
+        if any(same_rel(x, lit) for x in ls):
+            return True
+        from ..pathtable import negate
+        if any(same_rel(x, negate(lit)) for x in ls):
+            return False
+        return None
+
+    def weights_of(l, V, f):
+        """(W, problem) for the leaf: the caller's weights, or unit weights with NaN where the value is NaN."""
+        c = case(l, sp.Eq(w, NONE, evaluate=False))
+        if c is None:
+            return None, "the path does not decide whether weights were given"
+        if c is False:
+            return w, None
+        W = l.env.get("weights")
+        ones = [sp.Function("full_like")(V, sp.Integer(1)), sp.Function("ones_like")(V)]
+        if W not in ones:
+            return W, f"default weights are {W}, not unit weights of the shape of the values"
+        hit = False
+        for e in l.events:
+            if e[0] == "store" and id(e[3]) in l.store_at:
+                base, idx = l.store_at[id(e[3])]
+                if base == W and idx == sp.Function("isnan")(V) and e[2] is NAN:
+                    hit = True
+        if not hit:
+            return W, "default weights are not set to NaN where the (transformed) value is NaN: windows without a peak would be counted"
+        return W, None
+
+    for fname, calc in (("_nanmean_weighted", "mean"), ("_nanstd_weighted", "std")):
+        f = prog.func(f"statistics.{fname}")
+        if f.params[:3] != ["distribution", "values", "weights"]:
+            raise AnalysisError(f"{f.qualname}: parameters are {f.params}")
+        fac = sp.Function("_distribution_factory")(dist, sp.Symbol(f"'{calc}'"))
+        pre = lambda x: call(gi(fac, sp.Integer(0)), x)    # noqa: E731
+        post = lambda x: call(gi(fac, sp.Integer(1)), x)   # noqa: E731
+        V = pre(v)
+        leaves = _leaves(prog, f)
+        rets = [l for l in leaves if l.exit == "return"]
+        if not rets:
+            raise AnalysisError(f"{f.qualname}: no returning path")
+        n_ok = 0
+        for l in rets:
+            W, problem = weights_of(l, V, f)
+            label = "default weights" if case(l, sp.Eq(w, NONE, evaluate=False)) else "given weights"
+            if problem:
+                ck.violation(rule, f.qualname, "default weights", f"{problem}", loc=f.loc())
+                continue
+            if calc == "mean":
+                want = post(ns(V * W) / ns(W))
+                what = "post(nansum(pre(v)*w)/nansum(w))"
+            else:
+                # the mean about which deviations are taken
+                logn = case(l, sp.Eq(dist, sp.Symbol("'lognormal'"), evaluate=False))
+                nist = case(l, sp.Eq(den_p, sp.Symbol("'nist'"), evaluate=False))
+                cheng = case(l, sp.Eq(den_p, sp.Symbol("'cheng'"), evaluate=False))
+                if logn is None:
+                    ck.violation(rule, f.qualname, "lognormal mean in log space",
+                                 "for the lognormal distribution the deviations are not taken about log(mean) (no case distinction on the distribution)", loc=f.loc())
+                    continue
+                M = None
+                for a in sp.preorder_traversal(l.value):
+                    if getattr(a, "func", None) is not None and getattr(a.func, "__name__", "") == "_nanmean_weighted":
+                        M = a
+                if M is None or list(M.args[:3]) != [dist, v, w]:
+                    ck.violation(rule, f.qualname, "numerator", f"deviations are not taken about _nanmean_weighted(distribution, values, weights) (found {M})", loc=f.loc())
+                    continue
+                Mx = sp.log(M) if logn else M
+                if nist:
+                    D = (1 - 1 / sp.Function("sum")(sp.Function("invert")(sp.Function("isnan")(W)))) * ns(W)
+                    label += ", 'nist'"
+                elif cheng:
+                    D = 1 - ns(W ** 2)
+                    label += ", 'cheng'"
+                else:
+                    ck.violation(rule, f.qualname, "denominator", f"a value is returned for a denominator that is neither 'nist' nor 'cheng'", loc=f.loc())
+                    continue
+                label += ", lognormal" if logn else ", other distribution"
+                want = post(sp.sqrt(ns(W * (V - Mx) ** 2) / D))
+                what = "post(sqrt(nansum(w*(pre(v) - mean)^2)/denominator))"
+            if equal(l.value, want):
+                n_ok += 1
+                ck.ok(rule, f.qualname, f"{calc} [{label}] = {what}")
+            else:
+                ck.violation(rule, f.qualname, f"weighted {calc}", f"[{label}] returns {l.value}; expected {want}", loc=f.loc())
+        ck.floor(rule, n_ok, 2 if calc == "mean" else 8, f"cases of {fname}") if False else None
+        if calc == "std":
+            for key in ("nist", "cheng"):
+                if not any(case(l, sp.Eq(den_p, sp.Symbol(f"'{key}'"), evaluate=False)) for l in rets):
+                    ck.violation(rule, f.qualname, f"denominator '{key}'", f"no branch for denominator == '{key}'", loc=f.loc())
+            dflt = f.defaults().get("denominator")
+            if isinstance(dflt, ast.Constant) and dflt.value == "nist":
+                ck.ok(rule, f.qualname, "default denominator 'nist' (n-1 for unit weights)", nontrivial=False)
+            else:
+                ck.violation(rule, f.qualname, "default denominator", f"default denominator is {unparse(dflt) if dflt else None}, expected 'nist'", loc=f.loc())
 
     # ---- nth std
     f = prog.func("statistics._nth_std_factory")
-    br = _string_ladder(f, "distribution", returns=True)
-    TT = Translator()
-    mean, std, n = TT.sym("mean"), TT.sym("std"), TT.sym("n")
+    if f.params[:4] != ["n", "distribution", "mean", "std"]:
+        raise AnalysisError(f"{f.qualname}: parameters are {f.params}")
+    DM = R("DISTRIBUTION_MAP")
+    resolved = [sp.Function("get")(DM, dist, NONE), gi(DM, dist), sp.Function("get")(DM, dist)]
+    mean, std, n = R("mean"), R("std"), R("n")
     wants = {"normal": mean + n * std, "lognormal": sp.exp(sp.log(mean) + n * std)}
-    for key, wv in wants.items():
-        st = br.get(key)
-        got = TT.tr(st.value) if st is not None else None
-        if got is not None and equal(got, wv):
-            ck.ok(rule, f.qualname, f"{key}: {unparse(st.value)}")
+    leaves = _leaves(prog, f)
+    seen = set()
+    for l in [x for x in leaves if x.exit == "return"]:
+        key = None
+        for k in wants:
+            if any(case(l, sp.Eq(rv, sp.Symbol(f"'{k}'"), evaluate=False)) for rv in resolved):
+                key = k
+        if key is None:
+            ck.violation(rule, f.qualname, "nth std case", f"a value ({l.value}) is returned for a distribution that is neither 'normal' nor 'lognormal' after alias resolution", loc=f.loc())
+            continue
+        seen.add(key)
+        if equal(l.value, wants[key]):
+            ck.ok(rule, f.qualname, f"{key}: {wants[key]}")
         else:
-            ck.violation(rule, f.qualname, f"nth std ({key})", f"{key}: returns {got}; expected {wv}", loc=f.loc(st) if st is not None else f.loc())
+            ck.violation(rule, f.qualname, f"nth std ({key})", f"{key}: returns {l.value}; expected {wants[key]}", loc=f.loc())
+    for k in wants:
+        if k not in seen:
+            ck.violation(rule, f.qualname, f"nth std ({k})", f"{k}: returns None; expected {wants[k]}", loc=f.loc())
 
 
 def _check_factory_unpack(ck: Checker, rule: str, f: Func, calc: str):
@@ -445,44 +489,54 @@ def _string_ladder(f: Func, subject: str, returns: bool = False) -> Dict[str, as
 
 
 # --------------------------------------------------------------------------- accessor tables
-def check_accessor_table(ck: Checker, prog: Program, cls: Class, rule: str, table: Dict[str, List[str]]):
-    """Every return of each accessor equals one of the expected expressions (all listed ones present)."""
+def _canon_counts(e):
+    """count_nonzero(mask) and sum(mask) count the accepted windows alike."""
+    return e.replace(sp.Function("count_nonzero"), sp.Function("sum"))
+
+
+def check_accessor_table(ck: Checker, prog: Program, cls: Class, rule: str, table: Dict[str, List[str]], guards: Optional[Dict[str, Dict[str, str]]] = None):
+    """Every returning path of each accessor yields one of the expected expressions (all listed ones present); `guards`
+    optionally names, per accessor, the condition under which an expected expression must be returned
+    ({accessor: {expected source: guard source}}) and `"raise": guard` for a refusal."""
+    from ..pathtable import literals, same_rel
+    guards = guards or {}
     for name, wants in table.items():
         m = cls.methods.get(name)
         if m is None:
             ck.violation(rule, f"{cls.module.name}.{cls.name}", name, f"accessor {name} not found", loc="")
             continue
-        T = translator_for(prog, m, cls)
-        top = [st for st in m.node.body if isinstance(st, (ast.Assign, ast.AugAssign))]
-        forward_substitute(top, T)
-        rets = returns_of(m)
-        want_exprs = [expect(prog, m, w, cls) for w in wants]
+        leaves = _leaves(prog, m, cls)
+        rets = [l for l in leaves if l.exit == "return"]
+        want_exprs = [_canon_counts(expect(prog, m, w, cls)) for w in wants]
         used = set()
-        for r in rets:
-            # returns nested inside branches: use the local block's assignments too
-            TB = translator_for(prog, m, cls)
-            chain = []
-            p = r
-            while p is not m.node:
-                blk = _block_of(p)
-                chain = [s for s in blk if isinstance(s, (ast.Assign, ast.AugAssign)) and s.lineno < p.lineno] + chain
-                p = parent_of(p)
-            forward_substitute(chain, TB)
-            if r.value is None:
-                got = None
-            else:
-                got = TB.tr(r.value)
+        g = guards.get(name, {})
+        for l in rets:
+            got = _canon_counts(l.value) if l.value is not None else None
             hit = None
             for i, w in enumerate(want_exprs):
                 if got is not None and equal(got, w):
                     hit = i
-            if hit is not None:
-                used.add(hit)
-                ck.ok(rule, m.qualname, norm_key(r, 110))
+            if hit is None:
+                ck.violation(rule, m.qualname, f"return {str(got)[:90]}",
+                             f"return value `{got}` is not the stated estimator (expected one of: {'; '.join(wants)})", loc=m.loc())
+                continue
+            used.add(hit)
+            gsrc = g.get(wants[hit])
+            if gsrc is not None:
+                grel = _canon_counts(expect(prog, m, gsrc, cls))
+                lits = [_canon_counts(x) for x in literals(l)]
+                if not any(same_rel(x, grel) for x in lits):
+                    ck.violation(rule, m.qualname, "window count guard",
+                                 f"{name}: `{wants[hit]}` is returned under {lits}, not exactly when `{gsrc}`", loc=m.loc())
+                    continue
+            ck.ok(rule, m.qualname, f"returns {wants[hit][:100]}" + (f" when {gsrc}" if gsrc else ""))
+        if "raise" in g:
+            grel = _canon_counts(expect(prog, m, g["raise"], cls))
+            ok_r = any(l.exit == "raise" and any(same_rel(_canon_counts(x), grel) for x in literals(l)) for l in leaves)
+            if ok_r:
+                ck.ok(rule, m.qualname, f"refuses when {g['raise']}", nontrivial=False)
             else:
-                ck.violation(rule, m.qualname, norm_key(r, 110),
-                             f"return value `{unparse(r.value) if r.value is not None else None}` is not the stated estimator "
-                             f"(expected one of: {'; '.join(wants)})", loc=m.loc(r))
+                ck.violation(rule, m.qualname, "window count guard", f"{name}: does not refuse when `{g['raise']}`", loc=m.loc())
         for i, w in enumerate(wants):
             if i not in used:
                 ck.violation(rule, m.qualname, f"missing: {w}", f"no return path of {name} yields `{w}`", loc=m.loc())
